@@ -306,13 +306,19 @@ def run_viafile(ctx, vi, via, slot):
     try:
         doc = {key: value, 'other': 'role:r2'}
         fn = 'policy.' + via
-        if where == 'main':
-            env.write(fn, None, raw=text(doc))
-        else:
-            env.write(fn, None, raw=text({'other': 'role:r2'}))
-            env.write('policy.d/10.' + via, None, raw=text(doc))
+        # appears_later: the service has already loaded (and decided with)
+        # the files without the entry; the operator then adds it
+        later = bool(ctx.bool('entry_appears_after_first_load'))
+        target_file = fn if where == 'main' else 'policy.d/10.' + via
+        env.write(fn, None, raw=text({'other': 'role:r2'}))
+        if later and where == 'dir':
+            env.write(target_file, None, raw=text({'other': 'role:r2'}))
         enf = env.enforcer(defaults=defaults(), policy_file=env.path(fn),
                            enforce_new_defaults=not graceful)
+        if later:
+            enf.enforce('p', {}, {'roles': []})
+            enf.enforce(asked, {}, {'roles': []})
+        env.write(target_file, None, raw=text(doc))
         env.write('absent.' + via, None, raw=text({'other': 'role:r2'}))
         ref = env.enforcer(defaults=defaults(), policy_dirs=(),
                            policy_file=env.path('absent.' + via),
